@@ -38,6 +38,9 @@ func (e *Encoder) Encode(v interface{}) error {
 func (e *Encoder) EncodeWithOption(v interface{}, optFuncs ...EncodeOptionFunc) error {
 	ctx := encoder.TakeRuntimeContext()
 	ctx.Option.Flag = 0
+	// the pooled option block may still hold the writers of an earlier call
+	ctx.Option.DebugOut = os.Stdout
+	ctx.Option.DebugDOTOut = nil
 	ctx.Option.Context = nil // the pooled option block may still hold the context of an earlier call
 
 	err := e.encodeWithOption(ctx, v, optFuncs...)
@@ -50,6 +53,9 @@ func (e *Encoder) EncodeWithOption(v interface{}, optFuncs ...EncodeOptionFunc) 
 func (e *Encoder) EncodeContext(ctx context.Context, v interface{}, optFuncs ...EncodeOptionFunc) error {
 	rctx := encoder.TakeRuntimeContext()
 	rctx.Option.Flag = 0
+	// the pooled option block may still hold the writers of an earlier call
+	rctx.Option.DebugOut = os.Stdout
+	rctx.Option.DebugDOTOut = nil
 	rctx.Option.Flag |= encoder.ContextOption
 	rctx.Option.Context = ctx
 
@@ -115,6 +121,9 @@ func (e *Encoder) SetIndent(prefix, indent string) {
 func marshalContext(ctx context.Context, v interface{}, optFuncs ...EncodeOptionFunc) ([]byte, error) {
 	rctx := encoder.TakeRuntimeContext()
 	rctx.Option.Flag = 0
+	// the pooled option block may still hold the writers of an earlier call
+	rctx.Option.DebugOut = os.Stdout
+	rctx.Option.DebugDOTOut = nil
 	rctx.Option.Flag = encoder.HTMLEscapeOption | encoder.NormalizeUTF8Option | encoder.ContextOption
 	rctx.Option.Context = ctx
 	for _, optFunc := range optFuncs {
@@ -143,6 +152,9 @@ func marshal(v interface{}, optFuncs ...EncodeOptionFunc) ([]byte, error) {
 	ctx := encoder.TakeRuntimeContext()
 
 	ctx.Option.Flag = 0
+	// the pooled option block may still hold the writers of an earlier call
+	ctx.Option.DebugOut = os.Stdout
+	ctx.Option.DebugDOTOut = nil
 	ctx.Option.Flag |= (encoder.HTMLEscapeOption | encoder.NormalizeUTF8Option)
 	ctx.Option.Context = nil // the pooled option block may still hold the context of an earlier call
 	for _, optFunc := range optFuncs {
@@ -171,6 +183,9 @@ func marshalNoEscape(v interface{}) ([]byte, error) {
 	ctx := encoder.TakeRuntimeContext()
 
 	ctx.Option.Flag = 0
+	// the pooled option block may still hold the writers of an earlier call
+	ctx.Option.DebugOut = os.Stdout
+	ctx.Option.DebugDOTOut = nil
 	ctx.Option.Flag |= (encoder.HTMLEscapeOption | encoder.NormalizeUTF8Option)
 	ctx.Option.Context = nil // the pooled option block may still hold the context of an earlier call
 
@@ -196,6 +211,9 @@ func marshalIndent(v interface{}, prefix, indent string, optFuncs ...EncodeOptio
 	ctx := encoder.TakeRuntimeContext()
 
 	ctx.Option.Flag = 0
+	// the pooled option block may still hold the writers of an earlier call
+	ctx.Option.DebugOut = os.Stdout
+	ctx.Option.DebugDOTOut = nil
 	ctx.Option.Flag |= (encoder.HTMLEscapeOption | encoder.NormalizeUTF8Option | encoder.IndentOption)
 	ctx.Option.Context = nil // the pooled option block may still hold the context of an earlier call
 	for _, optFunc := range optFuncs {
